@@ -68,7 +68,37 @@ pub fn kernel_method() -> impl Strategy<Value = KM> {
     prop_oneof![
         2 => Just(KM::Linear),
         4 => gaussian_method(),
-        3 => (0u8..=12, 1u8..=3).prop_map(|(q, d)| KM::Polynomial(q as f64 / 4.0, d)),
+        3 => (0u8..=12, 1u8..=3).prop_map(|(q, d)| KM::Polynomial(q as f64 / 4.0, d as f64)),
+    ]
+}
+
+/// polynomial constants: quarters, tenths (not dyadic) and integers, either sign when `signed`
+fn poly_constant(signed: bool) -> BoxedStrategy<f64> {
+    let lo = if signed { -12i32 } else { 0 };
+    prop_oneof![
+        3 => (lo..=12).prop_map(|q| q as f64 / 4.0),
+        2 => (lo * 3..=36).prop_map(|q| q as f64 / 10.0),
+        1 => (lo / 4..=3).prop_map(|q| q as f64),
+        1 => Just(0.0),
+    ]
+    .boxed()
+}
+
+/// Kernel methods for the kernel-matrix sub-check. The flag says that the records must be made
+/// non-negative (fractional polynomial degree: the power is only defined for a base >= 0).
+pub fn kernel_method_any() -> impl Strategy<Value = (KM, bool)> {
+    prop_oneof![
+        2 => Just((KM::Linear, false)),
+        4 => gaussian_method().prop_map(|m| (m, false)),
+        // integral degree 0..=4, any constant, any records (negative bases are fine)
+        3 => (poly_constant(true), prop_oneof![8 => 1u8..=3, 1 => Just(0u8), 1 => Just(4u8)])
+            .prop_map(|(c, d)| (KM::Polynomial(c, d as f64), false)),
+        // fractional degree: multiples of 1/4 in (0, 3.75] and tenths in (0, 3.5]; constant >= 0, records >= 0
+        3 => (poly_constant(false), prop_oneof![
+                3 => (1u8..=15).prop_map(|k| k as f64 / 4.0),
+                2 => (1u8..=35).prop_map(|k| k as f64 / 10.0),
+            ])
+            .prop_map(|(c, d)| (KM::Polynomial(c, d), d.fract() != 0.0)),
     ]
 }
 
